@@ -56,6 +56,7 @@ fn dispatch(cmd: &str, rest: &[String]) -> i32 {
         "evo-trace" => evolution::trace(rest),
         "gp-trace" => gp::trace(rest),
         "gp-replay" => gp::replay(rest),
+        "gp-evo-trace" => gp::evo_trace(rest),
         "cmp-replay" => compose::replay(rest),
         "cmp-trace" => compose::trace(rest),
         "law-var" => laws::run(rest),
